@@ -8,8 +8,9 @@
    collect_roots  -- the root list exactly as VM::collect (runtime/src/vm/gc.rs) enumerates it
    holds_ref      -- the specification: the places through which the running program can still get
                      at an object (the property's "live variable, global, captured variable,
-                     running function"); manually managed buffers are excluded by the property
-                     itself, dead registers above every frame window and the layout snapshots that
+                     running function") plus the slots of live manually managed buffers (the
+                     property leaves those out; since /repo 474d1a4 the VM roots them, so the model
+                     does); dead registers above every frame window and the layout snapshots that
                      collect clears are not places the interpreter reads again. *)
 From Coq Require Import NArith List String Bool.
 From Aelys Require Import Model.Gc.
@@ -33,7 +34,8 @@ Record vm := mkVm {
   v_globals_by_index : list value;      (* VM::globals_by_index *)
   v_open_upvalues : list N;             (* VM::open_upvalues *)
   v_current_upvalues : list N;          (* VM::current_upvalues *)
-  v_globals_cache : list N              (* pointer values inside VM::globals_by_index_cache snapshots *)
+  v_globals_cache : list N;             (* pointer values inside VM::globals_by_index_cache snapshots *)
+  v_manual : list N                     (* pointer values in the live (not freed) buffers of VM::manual_heap *)
 }.
 
 Definition ptrs (l : list value) : list N :=
@@ -55,6 +57,7 @@ Definition collect_roots (s : vm) : list N :=
   ++ running_closures (v_frames s)
   ++ v_globals s
   ++ ptrs (v_globals_by_index s)
+  ++ v_manual s
   ++ v_open_upvalues s
   ++ v_current_upvalues s.
 
@@ -62,13 +65,20 @@ Definition collect_roots (s : vm) : list N :=
 Definition vm_collect (s : vm) (h : heap) : option (vm * heap) :=
   match collect h (collect_roots s) with
   | Some h' => Some (mkVm (v_registers s) (v_frames s) (v_globals s) (v_globals_by_index s)
-                          (v_open_upvalues s) (v_current_upvalues s) [], h')
+                          (v_open_upvalues s) (v_current_upvalues s) [] (v_manual s), h')
   | None => None
   end.
 
-(* HISTORICAL: the root list before /repo af27ef7 (running closures not rooted) *)
+(* HISTORICAL: the root list before /repo af27ef7 (running closures not rooted; manual buffers were
+   not roots either at that time) *)
 Definition collect_roots_old (s : vm) : list N :=
   flat_map (frame_roots (v_registers s)) (v_frames s)
+  ++ v_globals s ++ ptrs (v_globals_by_index s) ++ v_open_upvalues s ++ v_current_upvalues s.
+
+(* HISTORICAL: the root list before /repo 474d1a4 (values stored in manual memory were not roots) *)
+Definition collect_roots_no_manual (s : vm) : list N :=
+  flat_map (frame_roots (v_registers s)) (v_frames s)
+  ++ running_closures (v_frames s)
   ++ v_globals s ++ ptrs (v_globals_by_index s) ++ v_open_upvalues s ++ v_current_upvalues s.
 
 (* ---- specification: the places the program can still reach an object through ------------ *)
@@ -80,6 +90,7 @@ Inductive holds_ref (s : vm) : N -> Prop :=
 | hr_running_closure : forall f c, In f (v_frames s) -> fr_closure f = Some c -> holds_ref s c
 | hr_global : forall p, In p (v_globals s) -> holds_ref s p
 | hr_global_by_index : forall p, In (Some p) (v_globals_by_index s) -> holds_ref s p
+| hr_manual_buffer : forall p, In p (v_manual s) -> holds_ref s p   (* a slot of a live alloc()ed buffer: load() *)
 | hr_open_upvalue : forall p, In p (v_open_upvalues s) -> holds_ref s p
 | hr_current_upvalue : forall p, In p (v_current_upvalues s) -> holds_ref s p.
 
@@ -102,14 +113,15 @@ Inductive disposition :=
 | DMarked          (* every reference in it is marked by collect *)
 | DWindowed        (* marked through the register windows of the active frames *)
 | DCleared         (* dropped by collect: never read again with pre-collection contents *)
-| DOutside         (* manually managed buffers: outside the guarantee by the property's wording *)
+| DOutside         (* outside the guarantee by the property's wording (was: manually managed buffers, which
+                      /repo 474d1a4 made roots; no field has this disposition now) *)
 | DRawGuarded      (* raw pointers into objects that stay reachable through a marked field while the
                       entry is valid (call-site cache: validated against the global, property C05) *)
 | DCodeOnly.       (* mentions Value only in function-pointer signatures: stores no reference *)
 
 Local Open Scope string_scope.
 Definition field_disposition : list (string * disposition) :=
-  [("heap", DHeap); ("manual_heap", DOutside); ("registers", DWindowed); ("frames", DMarked);
+  [("heap", DHeap); ("manual_heap", DMarked); ("registers", DWindowed); ("frames", DMarked);
    ("globals", DMarked); ("globals_by_index_cache", DCleared); ("globals_by_index", DMarked);
    ("open_upvalues", DMarked); ("current_upvalues", DMarked); ("call_site_cache", DRawGuarded);
    ("native_registry", DCodeOnly)].
